@@ -39,6 +39,13 @@ Definition bfs_visit (L st : N) (path : list N) (acc : bfs_acc) (k : N) : bfs_ac
   | _ => acc
   end.
 
+(* Backspace (remove_last) as pseudo key class 255 *)
+Definition CLASS_BACKSPACE : N := 255.
+Definition bfs_backspace (L st : N) (path : list N) (acc : bfs_acc) : bfs_acc :=
+  let '(new, vis, com) := acc in
+  let s' := ls_syl (l_remove_last L (syl_state st)) in
+  if PM.mem (pkey s') vis then acc else ((s', CLASS_BACKSPACE :: path) :: new, PM.add (pkey s') tt vis, com).
+
 Fixpoint bfs (fuel : nat) (L : N) (frontier : list (N * list N)) (vis : PM.t unit) (com : PM.t (list N))
   : PM.t (list N) :=
   match fuel with
@@ -47,14 +54,15 @@ Fixpoint bfs (fuel : nat) (L : N) (frontier : list (N * list N)) (vis : PM.t uni
     match frontier with
     | [] => com
     | (st, path) :: rest =>
-        let '(new, vis', com') := fold_left (bfs_visit L st path) key_classes ([], vis, com) in
+        let '(new, vis', com') :=
+          bfs_backspace L st path (fold_left (bfs_visit L st path) key_classes ([], vis, com)) in
         bfs f L (rest ++ rev new) vis' com'
     end
   end.
 
 (* committed syllable -> key classes *)
 Definition commit_map (L : N) : PM.t (list N) :=
-  bfs 7000 L [(EMPTY_PATTERN, [])] (PM.add (pkey EMPTY_PATTERN) tt (PM.empty unit)) (PM.empty (list N)).
+  bfs (N.to_nat 7000) L [(EMPTY_PATTERN, [])] (PM.add (pkey EMPTY_PATTERN) tt (PM.empty unit)) (PM.empty (list N)).
 
 (* ---- Pinyin: the table product ---- *)
 Definition letter_event (c : N) : key_event := mk_event 0 (fst (ascii_keycode c)) c 0.
@@ -72,7 +80,7 @@ Definition pinyin_try (L : N) (m : PM.t (list N)) (s : list N) : PM.t (list N) :
   | [] => m
   | _ =>
     match run_editor L lstate_empty (map OpKey (map letter_event s ++ [space_event])) with
-    | Ok (_, [v]) => if is_empty v || PM.mem (pkey v) m then m else PM.add (pkey v) s m
+    | Ok (_, [v]) => if PM.mem (pkey v) m then m else PM.add (pkey v) s m
     | _ => m
     end
   end.
@@ -88,7 +96,7 @@ Definition find_byte (kb : N) (p : key_event -> bool) : option N :=
 (* class -> byte, for every class some byte produces *)
 Definition class_bytes (kb L : N) : list (N * N) :=
   flat_map (fun k => match find_byte kb (fun ev => class_of L ev =? k) with
-                     | Some c => [(k, c)] | None => [] end) key_classes.
+                     | Some c => [(k, c)] | None => [] end) key_classes ++ [(CLASS_BACKSPACE, BACKSPACE)].
 (* letter -> byte producing that character with an a-z key code; tone key code -> byte *)
 Definition letter_bytes (kb : N) : list (N * N) :=
   flat_map (fun u => match find_byte kb (fun ev => (ev_unicode ev =? u) && is_atoz (ev_code ev)) with
